@@ -556,6 +556,9 @@ class TVHarness(forksym.Harness):
         pdshim.KF_ON.update(j.get("kf_on", []))
         pdshim.ALLOW_WINDOW_TIES[0] = bool(j.get("allow_window_ties"))
         C.INF_ON[0] = bool(j.get("inf"))
+        from vf.sym import sqlsym as _sq
+
+        _sq.INT_DIV_EXACT[0] = bool(j.get("int_div_exact"))
         tabs = self.tabs()
         add_assumptions(eng, j.get("assume"), tabs)
         if C.INF_ON[0]:
